@@ -99,6 +99,17 @@ func alphabet() []inv {
 	add("BitPos", "int", A("bm", int64(1), int64(0), int64(-1)), "BITPOS", "bm", 1, 0, -1)
 	add("BitPos", "int", A("bm", int64(0), int64(0), int64(1)), "BITPOS", "bm", 0, 0, 1)
 	add("BitPos", "int", A("bm", int64(1), int64(1), int64(1)), "BITPOS", "bm", 1, 1, 1)
+	// an explicit end is not the same command as no end: with an end, a clear bit is not
+	// looked for beyond the string (all-ones value => -1), without one it is
+	for _, k := range []string{"bmf", "bm", "nokey"} {
+		for _, bit := range []int64{0, 1} {
+			add("BitPos", "int", A(k, bit, int64(0), int64(-1)), "BITPOS", k, bit, 0, -1)
+		}
+	}
+	add("BitPos", "int", A("bmf", int64(0), int64(1), int64(-1)), "BITPOS", "bmf", 0, 1, -1)
+	add("BitPos", "int", A("bmf", int64(0), int64(-1), int64(-1)), "BITPOS", "bmf", 0, -1, -1)
+	add("BitPos", "int", A("bmf", int64(0), int64(0), int64(0)), "BITPOS", "bmf", 0, 0, 0)
+	add("BitCount", "int", A("bmf", int64(0), int64(-1)), "BITCOUNT", "bmf", 0, -1)
 	addM("BitOpAnd", "int", A("bd", "bm", "bm2"), "BITOP", "AND", "bd", "bm", "bm2")
 	addM("BitOpOr", "int", A("bd", "bm", "bm2"), "BITOP", "OR", "bd", "bm", "bm2")
 	addM("BitOpXor", "int", A("bd", "bm", "bm2"), "BITOP", "XOR", "bd", "bm", "bm2")
@@ -302,6 +313,7 @@ func populate() []inv {
 	add("PFAdd", "bool1", A("hl2", "c", "d"), "PFADD", "hl2", "c", "d")
 	add("Set", "ok", A("bm", "\xf0\x0f"), "SET", "bm", "\xf0\x0f")
 	add("Set", "ok", A("bm2", "\x3c"), "SET", "bm2", "\x3c")
+	add("Set", "ok", A("bmf", "\xff\xff"), "SET", "bmf", "\xff\xff")
 	return t
 }
 
